@@ -27,7 +27,7 @@ from checks import c17_universe as U
 from checks.c17_oracle import Diff, independent, is_exportable, reachable
 
 UNIT_TIMEOUT = 1500.0
-CHEAP = ('chinfo', 'leg', 'pipe', 'array', 'site', 'other')
+CHEAP = ('chinfo', 'leg', 'pipe', 'array', 'other')
 SHARDS = dict(chinfo=1, leg=4, pipe=4, array=4, site=2, other=1, mps=6, mpo=2, lattice=2, model=6)
 
 
@@ -74,10 +74,18 @@ KIND = dict(h5='hdf5', compact='hdf5', blocks='hdf5', flat='hdf5', root='hdf5', 
 
 
 def _slug(msg):
-    """Stable key part: the attribute path without indices plus the kind of difference, no numbers."""
-    msg = re.sub(r'\[[^\]]*\]', '[]', msg.split('\n')[0])
-    msg = re.sub(r"'[^']*'|\"[^\"]*\"|0x[0-9a-f]+|-?\d+(\.\d+)?(e[-+]?\d+)?j?", '#', msg)
-    return re.sub(r'[^A-Za-z_.#:\[\]]+', '-', msg)[:70].strip('-')
+    """Stable key part of a message: no numbers, no quoted names, no punctuation."""
+    msg = re.sub(r"'[^']*'|\"[^\"]*\"|0x[0-9a-f]+|-?\d+(\.\d+)?(e[-+]?\d+)?j?", '#', msg.split('\n')[0])
+    return re.sub(r'[^A-Za-z_.#\[\]]+', '-', msg)[:60].strip('-')
+
+
+def _slug_diff(msg):
+    """Key part of a difference 'path: path: title: details': the path without indices and the title."""
+    parts = msg.split(': ')
+    n = 0
+    while n < len(parts) - 1 and (parts[n][:1] in '.[' or parts[n] == 'chinfo' or parts[n].startswith('legs[')):
+        n += 1
+    return ':'.join([re.sub(r'\[[^\]]*\]', '[]', p) for p in parts[:n]] + [_slug(parts[n])])
 
 
 def _blame(exc, kind, cls):
@@ -95,43 +103,52 @@ def _blame(exc, kind, cls):
     return stage, cls
 
 
-def roundtrip(obj, medium, diff, what):
-    """Run one original through one medium and the oracle; returns (outcome, violation-dict or None)."""
+def _sane(obj):
+    try:
+        obj.test_sanity()
+    except Exception as e:  # noqa: BLE001
+        return '%s: %s' % (type(e).__name__, e)
+
+
+def roundtrip(obj, medium, diff, what, full=True):
+    """Run one original through one medium and the oracle; returns (outcome, violation-dict or None).
+
+    full: also check that saving left the original unchanged and that the copy shares nothing with it."""
     cls = type(obj).__name__
     kind = KIND[medium]
 
-    def bad(stage, msg):
-        return '%s:%s' % (stage, msg.split(':')[0][:30]), dict(key='%s:%s:%s:%s' % (cls, kind, stage, _slug(msg)), what='%s via %s: %s: %s' % (what, medium, stage, msg))
+    def bad(stage, msg, slug=_slug_diff):
+        return '%s:%s' % (stage, msg.split(':')[0][:30]), dict(key='%s:%s:%s:%s' % (cls, kind, stage, slug(msg)), what='%s via %s: %s: %s' % (what, medium, stage, msg))
 
-
-    snap = None
-    if kind == 'hdf5':
-        try:
-            snap = copy.deepcopy(obj)
-        except Exception:  # noqa: BLE001  (reported by the 'deepcopy' medium)
-            pass
     with warnings.catch_warnings():
         warnings.simplefilter('ignore')
+        snap = None
+        if full and kind == 'hdf5':
+            try:
+                snap = copy.deepcopy(obj)
+            except Exception:  # noqa: BLE001  (reported by the 'deepcopy' medium)
+                pass
         try:
             new = MEDIA[medium](obj)
         except Exception as e:  # noqa: BLE001
             stage, cls = _blame(e, kind, cls)
-            return bad(stage, '%s: %s' % (type(e).__name__, e))
+            return bad(stage, '%s: %s' % (type(e).__name__, e), _slug)
+        d = snap is not None and Diff(ident=None).diff(snap, obj)
+        if d:
+            return bad('original-modified', d)
         d = diff.diff(obj, new)
         if d:
-            return bad('differs', d)
-        if hasattr(new, 'test_sanity'):
-            try:
-                new.test_sanity()
-            except Exception as e:  # noqa: BLE001
-                return bad('test_sanity', '%s: %s' % (type(e).__name__, e))
-        d = independent(obj, new)
+            out, v = bad('differs', d)
+            if diff.blame:  # key: the innermost exportable object that differs, not the container it sits in
+                v['key'] = '%s:%s:differs:%s' % (diff.blame[0], kind, _slug_diff(diff.blame[1]))
+            return out, v
+        if hasattr(new, 'test_sanity') and _sane(obj) is None:
+            d = _sane(new)
+            if d:
+                return bad('test_sanity', d, _slug)
+        d = full and independent(obj, new)
         if d:
             return bad('not-independent', d)
-        if snap is not None:
-            d = Diff(ident=None).diff(snap, obj)
-            if d:
-                return bad('original-modified', d)
     return 'ok', None
 
 
@@ -165,34 +182,32 @@ def run_cls(unit):
     return res
 
 
-def scenarios(obj, tier):
+def scenarios(obj, tier, group):
     """Containers in which `obj` (and exportable parts of it) are referenced more than once."""
-    parts = [p for p in reachable(obj)[1:] if is_exportable(p)]
-    picked, seen = [], set()
-    for p in parts:  # one part per class
-        if type(p) not in seen:
-            seen.add(type(p))
-            picked.append(p)
-    out = [('twice-in-list', lambda: [obj, obj]), ('two-dict-values', lambda: {'a': obj, 'b': {'c': obj}}),
-           ('tuple-and-general-dict', lambda: (obj, {1: obj, (2, 3): [obj]})),
-           ('equal-but-distinct', lambda: [obj, copy.deepcopy(obj)])]
-    for i, p in enumerate(picked[:2 if tier == 'quick' else 6]):
-        out.append(('part-before:%s' % type(p).__name__, lambda p=p: [p, obj]))
-        out.append(('part-after:%s' % type(p).__name__, lambda p=p: {'x': obj, 'y': p}))
+    picked = {}
+    for p in reachable(obj)[1:]:  # one exportable part per class
+        if is_exportable(p):
+            picked.setdefault(type(p), p)
+    picked = list(picked.values())[:1 if tier == 'quick' else 6]
+    out = [('tuple-and-general-dict', lambda: (obj, {1: obj, (2, 3): [obj]}))] + [('part-before:%s' % type(p).__name__, lambda p=p: [p, obj]) for p in picked]
+    if tier != 'quick' or group in CHEAP:
+        out += [('two-dict-values', lambda: {'a': obj, 'b': {'c': obj}}), ('equal-but-distinct', lambda: [obj, copy.deepcopy(obj)])]
+    if tier != 'quick':
+        out += [('twice-in-list', lambda: [obj, obj])] + [('part-after:%s' % type(p).__name__, lambda p=p: {'x': obj, 'y': p}) for p in picked]
     return out
 
 
 def check_scenario(group, name, obj, sc_name, medium, tier):
-    make = dict(scenarios(obj, tier))[sc_name]
+    make = dict(scenarios(obj, tier, group))[sc_name]
     try:
         with warnings.catch_warnings():
             warnings.simplefilter('ignore')
             data = make()
     except Exception:  # noqa: BLE001  (deepcopy failing is reported by the class grid)
         return None, None
-    out, v = roundtrip(data, medium, Diff(ident='all'), '%s[%s] in scenario %s' % (group, name, sc_name))
-    if v:  # the container is a plain list/dict/tuple: name the class inside
-        v['key'] = '%s:share:%s' % (type(obj).__name__, v['key'].split(':', 1)[1])
+    out, v = roundtrip(data, medium, Diff(ident='all'), '%s[%s] in scenario %s' % (group, name, sc_name), full=False)
+    if v and v['key'].split(':')[0] in ('list', 'dict', 'tuple'):  # blame the class inside rather than the plain container
+        v['key'] = '%s:%s' % (type(obj).__name__, v['key'].split(':', 1)[1])
     return out, v
 
 
@@ -200,7 +215,7 @@ def run_share(unit):
     _, group, medium, k, n, seed, tier = unit
     res = dict(evaluations=0, nontrivial_count=0, outcomes=set(), violations=[], samples=[])
     for name, obj in _instances(group, k, n, seed, tier):
-        for sc_name, _ in scenarios(obj, tier):
+        for sc_name, _ in scenarios(obj, tier, group):
             out, v = check_scenario(group, name, obj, sc_name, medium, tier)
             if out is None:
                 continue
@@ -210,21 +225,24 @@ def run_share(unit):
             if v and len(res['violations']) < 20 and v['key'] not in [w['key'] for w in res['violations']]:
                 res['violations'].append(dict(v, case=dict(kind='share', group=group, name=name, scenario=sc_name, medium=medium, seed=seed, tier=tier)))
         if not res['samples']:
-            res['samples'].append(dict(group=group, instance=name, scenarios=[s for s, _ in scenarios(obj, tier)], medium=medium))
+            res['samples'].append(dict(group=group, instance=name, scenarios=[s for s, _ in scenarios(obj, tier, group)], medium=medium))
     return res
 
 
 def run_reflect(unit):
+    """Every class found by reflection needs an instance in the universe; an abstract base class (cannot be
+    instantiated itself) counts as reached through instances of its subclasses, which run its export code."""
     _, seed, tier = unit
     classes = U.exportable_classes()
-    have = set()
-    for g in U.GROUPS:
-        have.update(type(o) for _, o in U.build(g, seed, tier))
-    uncovered = sorted(full for full, c in classes.items() if c not in have)
-    return dict(evaluations=len(classes), keys=['class:' + f for f, c in classes.items() if c in have], violations=[],
-                outcomes=['uncovered:' + f for f in uncovered], capped=bool(uncovered),
-                extra=dict(exportable_classes_found=len(classes), uncovered_classes=len(uncovered)),
-                samples=[dict(uncovered_classes=uncovered)])
+    objs = [o for g in U.GROUPS for _, o in U.build(g, seed, tier)]
+    direct = {type(o) for o in objs}
+    via_subclass = {c for c in classes.values() if c not in direct and any(isinstance(o, c) for o in objs)}
+    uncovered = sorted(f for f, c in classes.items() if c not in direct and c not in via_subclass)
+    return dict(evaluations=len(classes), keys=['class:' + f for f, c in classes.items() if c in direct], violations=[],
+                outcomes=['uncovered:' + f for f in uncovered] + ['only-via-subclass:' + c.__name__ for c in via_subclass], capped=bool(uncovered),
+                extra=dict(exportable_classes_found=len(classes), classes_with_own_instance=len(classes) - len(via_subclass) - len(uncovered),
+                           abstract_classes_via_subclass=len(via_subclass), uncovered_classes=len(uncovered)),
+                samples=[dict(uncovered_classes=uncovered, only_via_subclass=sorted(c.__name__ for c in via_subclass))])
 
 
 # ------------------------------------------------------------------ plain data
@@ -255,22 +273,22 @@ def atoms():
     A = [('None', lambda: None), ('True', lambda: True), ('False', lambda: False), ('0', lambda: 0), ('-3', lambda: -3),
          ('2**63-1', lambda: 2**63 - 1), ('2**63', lambda: 2**63), ('2**64+5', lambda: 2**64 + 5), ('-2**63-1', lambda: -2**63 - 1),
          ('-2**63', lambda: -2**63), ('10**40', lambda: 10**40), ('1.5', lambda: 1.5), ('-0.0', lambda: -0.0), ('inf', lambda: float('inf')),
-         ('nan', lambda: float('nan')), ('1+2j', lambda: 1 + 2j), ("''", lambda: ''), ("'abc'", lambda: 'abc'), ("'ü/.'", lambda: 'ü/.\n'),
+         ('nan', lambda: float('nan'), False), ('1+2j', lambda: 1 + 2j), ("''", lambda: ''), ("'abc'", lambda: 'abc'), ("'ü/.'", lambda: 'ü/.\n'),
          ("b''", lambda: b''), ("b'ab'", lambda: b'ab\xff'), ('np.int64', lambda: np.int64(-7)), ('np.int32', lambda: np.int32(7)),
          ('np.float64', lambda: np.float64(2.5)), ('np.float32', lambda: np.float32(2.5)), ('np.complex128', lambda: np.complex128(1j)),
          ('np.complex64', lambda: np.complex64(1 - 1j)), ('np.bool_', lambda: np.bool_(True)), ('np.False_', lambda: np.bool_(False)),
          ('range(3)', lambda: range(3)), ('range(1,10,3)', lambda: range(1, 10, 3)), ('range(5,0,-2)', lambda: range(5, 0, -2)), ('range(0)', lambda: range(0)),
          ('dtype:f8', lambda: np.dtype('f8')), ('dtype:c16', lambda: np.dtype(complex)), ('dtype:i4', lambda: np.dtype('i4')), ('dtype:bool', lambda: np.dtype(bool)),
          ('dtype:>f4', lambda: np.dtype('f4')), ('dtype:struct', lambda: np.dtype([('a', 'i4'), ('b', 'f8', (2,))])),
-         ('dtype:U3', lambda: np.dtype('U3')), ('dtype:S3', lambda: np.dtype('S3'))]
-    A = [(n, f, True) for n, f in A]
+         ('dtype-str:U3', lambda: np.dtype('U3')), ('dtype-str:S3', lambda: np.dtype('S3'))]
+    A = [(a + (True,))[:3] for a in A]  # (all hashable, but nan != nan makes it useless as set element / dict key)
     arrs = [('arr:0d', lambda: np.array(3.0)), ('arr:empty', lambda: np.array([])), ('arr:(0,3)', lambda: np.zeros((0, 3), int)),
             ('arr:bool', lambda: np.array([True, False])), ('arr:complex', lambda: np.array([[1j, 2], [3, 4]])), ('arr:int', lambda: np.arange(3)),
             ('arr:f4', lambda: np.arange(3, dtype='f4')), ('arr:i1', lambda: np.array([-1, 1], 'i1')), ('arr:nan', lambda: np.array([np.nan, np.inf])),
             ('arr:S1', lambda: np.array([b'a', b'b'])), ('arr:view', lambda: np.arange(12.0).reshape(3, 4)[::2, 1:].T),
             ('ma:some-masked', lambda: ma([1.0, 2.0, 3.0], mask=[0, 1, 0])), ('ma:nomask', lambda: ma([1, 2, 3])), ('ma:mask-all-false', lambda: ma([1e20, 1.0], mask=[0, 0])),
-            ('ma:data-equals-fill-unmasked', lambda: ma([1e20, 2.0], mask=[0, 1])), ('ma:all-fill-unmasked', lambda: ma([1e20, 1e20])),
-            ('ma:int-all-fill-unmasked', lambda: ma([999999])), ('ma:fill_value', lambda: ma([[1, 2], [3, 4]], mask=[[0, 1], [0, 0]], fill_value=2)),
+            ('ma:data-equals-fill-unmasked', lambda: ma([1e20, 2.0], mask=[0, 1])), ('ma-unmasked-fill:float', lambda: ma([1e20, 1e20])),
+            ('ma-unmasked-fill:int', lambda: ma([999999])), ('ma:fill_value', lambda: ma([[1, 2], [3, 4]], mask=[[0, 1], [0, 0]], fill_value=2)),
             ('ma:complex', lambda: ma([1j, 2], mask=[0, 1])), ('ma:bool', lambda: ma([True, False], mask=[0, 1])), ('ma:all-masked', lambda: ma([1.0, 2.0], mask=True)),
             ('ma:empty', lambda: ma([], dtype=float)), ('ma:0d-masked', lambda: ma(5.0, mask=True)), ('ma:0d', lambda: ma(5.0))]
     return A + [(n, f, False) for n, f in arrs]
@@ -297,15 +315,28 @@ def plain_cases():
                     out.append(('%s(%s(%s))' % (c1, c2, n), lambda f=f, w1=w1, w2=w2: w1(w2(f()))))
     for k1, k2 in itertools.combinations_with_replacement(range(len(KEYS)), 2):
         out.append(('dict-keys(%r,%r)' % (KEYS[k1], KEYS[k2]), lambda k1=k1, k2=k2: {KEYS[k1]: [k1], KEYS[k2]: (k2,)}))
-    out.append(('all-atoms-in-one-list', lambda: [f() for _, f, _ in atoms()]))
-    out.append(('all-atoms-in-one-dict', lambda: {n: f() for n, f, _ in atoms()}))
-    out.append(('all-hashable-atoms-in-one-set', lambda: {f() for n, f, h in atoms() if h and n != 'nan'}))
+    good = [(n, f, h) for n, f, h in atoms() if check_plain(n, f)[1] is None]  # (a failing atom is reported on its own)
+    out.append(('all-atoms-in-one-list', lambda: [f() for _, f, _ in good]))
+    out.append(('all-atoms-in-one-dict', lambda: {n: f() for n, f, _ in good}))
+    out.append(('all-hashable-atoms-in-one-set', lambda: {f() for _, f, h in good if h}))
     return out
+
+
+# the only plain data the saver is allowed to refuse (error while saving): its documentation promises a copy only
+# "provided that the save did not fail with an error"; a dict key '' passes `valid_hdf5_path_component` but is no HDF5 name
+PLAIN_MAY_REFUSE = ("gdict_key('')",)
 
 
 def check_plain(label, make):
     data = make()
-    return roundtrip(data, 'root' if isinstance(data, (list, tuple, set, dict)) else 'blocks', Diff(strict=True, ident='all'), 'plain data ' + label)
+    diff = Diff(strict=True, ident='all')
+    out, v = roundtrip(data, 'root' if isinstance(data, (list, tuple, set, dict)) else 'blocks', diff, 'plain data ' + label)
+    if v and out.startswith('save') and any(p in label for p in PLAIN_MAY_REFUSE):
+        return 'refused-' + out, None
+    if v:
+        atom = 'dict-keys' if label.startswith('dict-keys') else re.sub(r'^(?:\w+\()*|\)*$', '', label).split(':')[0]  # family of the atom
+        v['key'] = 'plain:%s:%s' % (atom, _slug_diff(diff.leaf) if diff.leaf else v['key'].split(':', 2)[2])
+    return out, v
 
 
 def run_plain(unit):
@@ -318,11 +349,8 @@ def run_plain(unit):
         res['evaluations'] += 1
         res['nontrivial_count'] += 1
         res['outcomes'].add('plain:' + out)
-        if v and len(res['violations']) < 20:
-            atom = re.sub(r'^(?:\w+\()*|\)*$', '', label)
-            v['key'] = 'plain:%s:%s' % (atom if not label.startswith('dict-keys') else 'dict-keys', v['key'].split(':', 2)[2])
-            if v['key'] not in [w['key'] for w in res['violations']]:
-                res['violations'].append(dict(v, case=dict(kind='plain', label=label)))
+        if v and len(res['violations']) < 20 and v['key'] not in [w['key'] for w in res['violations']]:
+            res['violations'].append(dict(v, case=dict(kind='plain', label=label)))
         if not res['samples']:
             res['samples'].append(dict(plain=label))
     return res
@@ -335,7 +363,7 @@ def fallback_cases():
             ('defaultdict:empty', lambda: collections.defaultdict(int)), ('frozenset', lambda: frozenset([1, 'a'])), ('bytearray', lambda: bytearray(b'ab')),
             ('slice', lambda: slice(1, None, 2)), ('WithState', lambda: WithState([1, 2.5])), ('PlainObject', lambda: PlainObject('v')),
             ('builtin-function', lambda: len), ('function', lambda: copy.deepcopy),
-            ('class', lambda: collections.OrderedDict), ('tenpy-class', lambda: U.exportable_classes()['tenpy.networks.mps.MPS']),
+            ('class', lambda: collections.OrderedDict), ('tenpy-class', lambda: U.exportable_classes()['tenpy.linalg.np_conserved.Array']),
             ('Fraction', lambda: fractions.Fraction(1, 3)), ('numpy-dispatched-function', lambda: np.sum), ('Ellipsis', lambda: Ellipsis),
             ('np.uint64', lambda: np.uint64(2**63)), ('np.float16', lambda: np.float16(1.5))]
 
@@ -346,11 +374,14 @@ MAY_REFUSE = ('Fraction', 'numpy-dispatched-function', 'Ellipsis', 'np.uint64', 
 
 
 def check_fallback(label, make):
-    out, v = roundtrip({'x': make()}, 'root', Diff(strict=True, ident='all'), 'fallback object ' + label)
+    obj = make()
+    out, v = roundtrip({'x': obj}, 'root', Diff(strict=True, ident='all'), 'fallback object ' + label)
     if v and out.startswith('save') and label in MAY_REFUSE:
         return 'refused-' + out, None
-    if v:
-        v['key'] = 'fallback:%s:%s' % (label.split(':')[0], v['key'].split(':', 2)[2])
+    if v:  # key: which optional parts of the pickle protocol the object uses
+        rv = obj.__reduce__()
+        used = [n for n, x in zip(('state', 'listitems', 'dictitems', 'state_setter'), rv[2:]) if x is not None] if isinstance(rv, tuple) else ['global']
+        v['key'] = 'fallback:reduce[%s]:%s' % ('+'.join(used), v['key'].split(':', 2)[2])
     return out, v
 
 
@@ -441,7 +472,7 @@ def build_graph(spec):
 
 def check_graph(spec):
     loose = any(t == 'T' and _on_cycle(spec, i) for i, (t, _) in enumerate(spec))
-    out, v = roundtrip(build_graph(spec), 'root', Diff(strict=True, ident='all', loose_tuples=loose), 'reference graph %s' % (spec,))
+    out, v = roundtrip(build_graph(spec), 'root', Diff(strict=True, ident='all', loose_tuples=loose), 'reference graph %s' % (spec,), full=False)
     if v:
         shape = 'cyclic' if any(_on_cycle(spec, i) for i in range(len(spec))) else 'acyclic'
         v['key'] = 'graph:%s:%s:%s' % (''.join(sorted(set(t for t, _ in spec))), shape, v['key'].split(':', 2)[2])
